@@ -206,6 +206,7 @@ def make_numpy():
     m.repeat = lambda x, r, axis=None: NDArray(np.repeat(_obj(x), r, axis=axis))
     m.isin = lambda x, vals: NDArray(T._uf(lambda v: core.s_or(*[v == w for w in list(_obj(vals).flat)]), 1)(_obj(x)), dtype="bool")
     m.set_printoptions = lambda *a, **k: None
+    m.nan_to_num = lambda x, *a, **k: x
 
     def frombuffer(buf, dtype=None):
         from .loader import SymBytes
@@ -432,23 +433,92 @@ def make_tqdm():
     return m
 
 
+class _ILoc:
+    def __init__(self, df):
+        self.df = df
+
+    def __getitem__(self, key):
+        rows, cols = key
+        names = [self.df.columns[c] for c in (cols if isinstance(cols, (list, tuple)) else range(*cols.indices(len(self.df.columns))))]
+        idx = range(*rows.indices(len(self.df))) if isinstance(rows, slice) else rows
+        return DataFrame({n: [self.df.data[n][i] for i in idx] for n in names})
+
+
+class DataFrame:
+    """pandas-lite: just what io._interleave_loci / extract_loci touch; cells may be symbolic"""
+
+    def __init__(self, data=None, columns=None):
+        if isinstance(data, dict):
+            self.columns = list(data.keys())
+            self.data = {k: list(v.a.flat) if isinstance(v, Arr) else list(v) for k, v in data.items()}
+        else:
+            rows = [list(r) for r in (data or [])]
+            self.columns = list(columns) if columns is not None else list(range(len(rows[0]) if rows else 0))
+            self.data = {c: [r[i] for r in rows] for i, c in enumerate(self.columns)}
+
+    def __len__(self):
+        return len(self.data[self.columns[0]]) if self.columns else 0
+
+    @property
+    def iloc(self):
+        return _ILoc(self)
+
+    def copy(self):
+        return DataFrame({k: list(v) for k, v in self.data.items()})
+
+    def __getitem__(self, k):
+        if isinstance(k, Arr):           # boolean row mask
+            m = T.concretize_bool_array(k.a)
+            return DataFrame({c: [v for v, keep in zip(self.data[c], m) if keep] for c in self.columns})
+        return NDArray(np.array(self.data[k], dtype=object)) if self.data[k] else NDArray(np.empty((0,), dtype=object))
+
+    def __setitem__(self, k, v):
+        vals = list(v.a.flat) if isinstance(v, Arr) else list(v)
+        if len(self.columns) and len(vals) != len(self):
+            raise ValueError("Length of values does not match length of index")
+        if k not in self.data:
+            self.columns.append(k)
+        self.data[k] = vals
+
+    @property
+    def values(self):
+        return [[self.data[c][i] for c in self.columns] for i in range(len(self))]
+
+    def set_index(self, col):
+        d = self.copy()
+        d._index = d.data.pop(col)
+        d.columns.remove(col)
+        return d
+
+    def sort_index(self):
+        order = sorted(range(len(self._index)), key=lambda i: int(self._index[i]))   # stable, index values are concrete
+        d = DataFrame({c: [self.data[c][i] for i in order] for c in self.columns})
+        d._index = [self._index[i] for i in order]
+        return d
+
+    def reset_index(self, drop=False):
+        return DataFrame({c: list(self.data[c]) for c in self.columns})
+
+
+class Series(DataFrame):
+    pass
+
+
 def make_pandas():
     m = types.ModuleType("pandas")
-
-    class DataFrame:
-        def __init__(self, *a, **k):
-            raise Inconclusive("pandas.DataFrame is not modelled")
-
-    class Series(DataFrame):
-        pass
     m.DataFrame, m.Series = DataFrame, Series
+
+    def concat(dfs, **k):
+        dfs = list(dfs)
+        cols = dfs[0].columns
+        return DataFrame({c: [v for d in dfs for v in d.data[c]] for c in cols})
+    m.concat = concat
 
     def _un(name):
         def f(*a, **k):
             raise Inconclusive("pandas.%s is not modelled" % name)
         return f
-    for n in ("read_csv", "concat"):
-        setattr(m, n, _un(n))
+    m.read_csv = _un("read_csv")
     return m
 
 
